@@ -107,5 +107,5 @@ Print Assumptions C07_constants_match_source.
 Example C07_history_exists :
   run [-1;-1;8;100;1; 0; 3;2;0;3; 5; 1; 2; 3;0;1;503]
       [[0;1;0;0;0;0;3; 3; 0;1;9; 2;5;20; 1;502;0;  2; 1;503;0; 2;6;30;  2; 0;2;4; 2;7;12]]
-  = [[0; 200; 1; 2; 4; 12; 745647184728; 0; 3;  0; 1; 0; 0; 0; 0; 0;  0; 1; 0; 0; 0; 0; 0;  0; 1; 0; 0; 0; 0; 0]].
+  = [[0; 200; 1; 2; 4; 12; 745647184728; 0; 3;  0; 1; 0; 0; 0; 0; 0;  0; 1; 0; 0; 0; 0; 0;  0; 1; 0; 0; 0; 0; 0;  1; 2; 3]].
 Proof. vm_compute; reflexivity. Qed.
